@@ -280,7 +280,7 @@ func genC15() {
 		if sw == nil {
 			fail("pkg/apk/expandapk/expandapk.go: ExpandApk: no switch assigns the section indices (the model transcribes `switch numGzipStreams`)")
 		} else {
-			var rows []string
+			var rows, guards []string
 			defaultErr, hasDefault := false, false
 			for _, c := range sw.Body.List {
 				cc := c.(*ast.CaseClause)
@@ -295,6 +295,30 @@ func genC15() {
 				}
 				vals := map[string]int64{"sig": 0, "ctl": 0, "pkg": 0} // Go's zero value when an arm leaves one unassigned
 				for _, st := range cc.Body {
+					// an arm may begin with `if <x>.maxStreams == N { return nil, <error> }` (fix 3bc1979: a signed
+					// package needs three streams): recorded per case label as (count, N)
+					if is, ok := st.(*ast.IfStmt); ok && is.Init == nil && is.Else == nil {
+						be, okb := is.Cond.(*ast.BinaryExpr)
+						var lim int64
+						okg := false
+						if okb && be.Op == token.EQL {
+							if se, ok := be.X.(*ast.SelectorExpr); ok && se.Sel.Name == "maxStreams" {
+								lim, okg = intLit(be.Y)
+							}
+						}
+						if okg && len(is.Body.List) == 1 {
+							if rs, ok := is.Body.List[0].(*ast.ReturnStmt); ok && len(rs.Results) == 2 && exprText(rs.Results[0]) == "nil" && exprText(rs.Results[1]) != "nil" {
+								for _, e := range cc.List {
+									if n, ok := intLit(e); ok {
+										guards = append(guards, fmt.Sprintf("(%d, %d)%%Z", n, lim))
+									}
+								}
+								continue
+							}
+						}
+						fail("ExpandApk: switch arm with an if that is not `if <x>.maxStreams == N { return nil, err }`: %s", exprText(st))
+						continue
+					}
 					as, ok := st.(*ast.AssignStmt)
 					if !ok || len(as.Lhs) != 1 || len(as.Rhs) != 1 {
 						fail("ExpandApk: switch arm with a statement that is not a simple assignment: %s", exprText(st))
@@ -319,6 +343,8 @@ func genC15() {
 			}
 			g.def("expand_switch", "list (Z * (Z * Z * Z))", "["+strings.Join(rows, "; ")+"]",
 				"ExpandApk's switch on the number of gzip members at "+g.pos(sw)+": count -> (signature, control, package) index")
+			g.def("expand_switch_arm_guards", "list (Z * Z)", "["+strings.Join(guards, "; ")+"]",
+				"arms that begin with `if maxStreams == N { return error }`: (case label, N)")
 			g.def("expand_switch_default_errors", "bool", fmt.Sprint(hasDefault && defaultErr), "the default arm returns an error (false: the indices keep Go's zero values)")
 		}
 		// signed := <sig> >= 0, and the signature indexings sit under `if signed`
